@@ -206,7 +206,7 @@ class State:
 
 class SymEval:
     def __init__(self, ce: ConstEval, func: FuncInfo, bind: dict | None = None, override=None, unroll: int = 0,
-                 modenv: dict | None = None, selfname: str | None = None, uid_base: int = 0, frozen_fields=(), on_index=None):
+                 modenv: dict | None = None, selfname: str | None = None, uid_base: int = 0, frozen_fields=(), on_index=None, inline=None):
         self.ce = ce
         self.func = func
         self.modenv = modenv if modenv is not None else ce.module_env(func.module)
@@ -217,6 +217,9 @@ class SymEval:
         self.uid = uid_base
         self.frozen_fields = frozenset(frozen_fields)
         self.on_index = on_index
+        self.inline = inline  # callable(call node, callee term, caller FuncInfo) -> FuncInfo to inline, or None
+        self._inline_stack = []  # [(FuncInfo, returns list)]
+        self._lid_prefix = ""
         self._loops: list = []
         self._trys: list = []
         self._handler = None
@@ -299,7 +302,10 @@ class SymEval:
             return st
         if isinstance(s, ast.Return):
             v = self.expr(s.value, st) if s.value is not None else const(None)
-            self._effect("return", s, v, st)
+            if self._inline_stack:
+                self._inline_stack[-1][1].append((st.dnf, v, dict(st.env)))
+            else:
+                self._effect("return", s, v, st)
             st.dead = "return"
             return st
         if isinstance(s, ast.Raise):
@@ -467,7 +473,7 @@ class SymEval:
         return ("ite", c, a, b)
 
     def loop(self, s, st: State) -> State:
-        lid = f"L{getattr(s, 'lineno', 0)}"
+        lid = f"{self._lid_prefix}L{getattr(s, 'lineno', 0)}"
         assigned = _assigned_names(s.body) | (_assigned_names([ast.Assign(targets=[s.target], value=ast.Constant(0))]) if isinstance(s, ast.For) else set())
         fields = _assigned_fields(s.body, self.selfname)
         calls_self = _calls_self_methods(s.body, self.selfname)
@@ -486,6 +492,29 @@ class SymEval:
                     if st.dead:
                         return st
                 return self.block(s.orelse, st) if s.orelse else st
+        if isinstance(s, ast.While) and self.unroll and not s.orelse and not _has_break_continue(s.body):
+            # constant-trip-count while loop: unroll as long as the test folds to a constant
+            limit = self.unroll if isinstance(self.unroll, int) and not isinstance(self.unroll, bool) else 64
+            trial = st.copy()
+            mark_effects, mark_uid = len(self.effects), self.uid
+            n, okk = 0, True
+            while True:
+                t = self.truth(self.cond(self.expr(s.test, trial)))
+                if t is None or n > limit:
+                    okk = False
+                    break
+                if t is False:
+                    break
+                trial = self.block(s.body, trial)
+                n += 1
+                if trial.dead:
+                    okk = False
+                    break
+            if okk and (not callable(self.unroll) or self.unroll(s, list(range(n)))):
+                info["unrolled"] = n
+                return trial
+            del self.effects[mark_effects:]
+            self.uid = mark_uid
         # havoc loop-carried state
         pre = st.copy()
         st = st.copy()
@@ -537,7 +566,7 @@ class SymEval:
         return out
 
     def try_(self, s, st: State) -> State:
-        tid = f"T{s.lineno}"
+        tid = f"{self._lid_prefix}T{s.lineno}"
         pre = st.copy()
         self._trys.append(tid)
         body = self.block(s.body, st.copy())
@@ -757,8 +786,8 @@ class SymEval:
                 it = self.expr(g.iter, inner)
                 for n in ast.walk(g.target):
                     if isinstance(n, ast.Name):
-                        inner.env[n.id] = ("elem", it, f"C{e.lineno}")
-            lid = f"C{e.lineno}"
+                        inner.env[n.id] = ("elem", it, f"{self._lid_prefix}C{e.lineno}")
+            lid = f"{self._lid_prefix}C{e.lineno}"
             self._loops.append(lid)
             if isinstance(e, ast.DictComp):
                 body = (self.expr(e.key, inner), self.expr(e.value, inner))
@@ -872,6 +901,12 @@ class SymEval:
                 return self.lift(getattr(rv, f[2])(*[a[1] for a in args], **{k: v[1] for k, v in kwargs}))
             except Exception:
                 pass
+        if self.inline is not None and len(self._inline_stack) < 3:
+            callee = self.inline(e, f, self.func)
+            if callee is not None and all(callee is not fi for fi, _ in self._inline_stack) and callee is not self.func:
+                r = self._inline_call(callee, f, args, kwargs, st)
+                if r is not None:
+                    return r
         uid = self._new_uid()
         t = ("call", uid, f, args, kwargs)
         self._effect("call", e, t, st)
@@ -886,6 +921,26 @@ class SymEval:
             if not (f == ("builtin", "setattr") and len(args) == 3 and is_const(args[1])):
                 st.env["self.*"] = ("after", uid)
         return t
+
+
+def _build_gated(rets, base_len):
+    """[(conjunction, value)] -> gated term, splitting on the first literal beyond the common prefix."""
+    if len(rets) == 1:
+        return rets[0][1]
+    vals = {v for _, v in rets}
+    if len(vals) == 1:
+        return rets[0][1]
+    # choose a literal on which the alternatives differ
+    for lit in rets[0][0][base_len:]:
+        c, pol = lit
+        pos = [(cj, v) for cj, v in rets if (c, pol) in cj]
+        neg = [(cj, v) for cj, v in rets if (c, not pol) in cj]
+        if pos and neg and len(pos) + len(neg) == len(rets):
+            a, b = _build_gated(pos, base_len), _build_gated(neg, base_len)
+            if a is None or b is None:
+                return None
+            return ("ite", c, a, b) if pol else ("ite", c, b, a)
+    return None
 
 
 _TYPES = {"tuple": tuple, "int": int, "str": str, "dict": dict, "list": list, "bytes": bytes, "float": float, "bool": bool, "set": set, "bytearray": bytearray}
@@ -910,6 +965,75 @@ def static_type(t):
     if t[0] == "typed":
         return t[1]
     return None
+
+
+def _inline_call_impl(self, callee, f, args, kwargs, st):
+    """Evaluate a small private helper in place of an opaque call (interprocedural inlining, depth <= 3).
+    Returns the gated result term, or None when the call cannot be inlined (then it stays an opaque call)."""
+    a = callee.node.args
+    if a.vararg or a.kwarg or a.posonlyargs or callee.decorators and not callee.is_static:
+        return None
+    params = [x.arg for x in a.args]
+    is_method = bool(callee.cls) and not callee.is_static
+    if is_method and not (f[0] == "attr" and f[1] == ("self",)):
+        return None
+    env = {}
+    pos = list(params[1:]) if is_method else list(params)
+    if len(args) > len(pos):
+        return None
+    for n, v in zip(pos, args):
+        env[n] = v
+    for k, v in kwargs:
+        if k is None or (k not in pos and k not in [x.arg for x in a.kwonlyargs]):
+            return None
+        env[k] = v
+    callee_env = self.ce.module_env(callee.module)
+    defaults = [None] * (len(params) - len(a.defaults)) + list(a.defaults)
+    for n, d in list(zip(params, defaults)) + list(zip([x.arg for x in a.kwonlyargs], a.kw_defaults)):
+        if n not in env and d is not None and not (is_method and n == params[0]):
+            env[n] = self.lift(self.ce.eval(callee.module, d, callee_env))
+    if any(n not in env for n in pos):
+        return None
+    if is_method:
+        env[params[0]] = ("self",)
+        for k, v in st.env.items():
+            if k.startswith("self."):
+                env[k] = v
+    saved = (self.func, self.modenv, self.selfname, self._lid_prefix)
+    self.func, self.modenv, self.selfname = callee, callee_env, (params[0] if is_method else None)
+    self._lid_prefix = saved[3] + callee.name + "."
+    rets = []
+    self._inline_stack.append((callee, rets))
+    sub = State(env, st.dnf, None)
+    base_len = min((len(c) for c in st.dnf), default=0)
+    try:
+        sub = self.block(callee.node.body, sub)
+    finally:
+        self._inline_stack.pop()
+        self.func, self.modenv, self.selfname, self._lid_prefix = saved
+    alts = [(dnf, v, env2) for dnf, v, env2 in rets]
+    if not sub.dead:
+        alts.append((sub.dnf, const(None), dict(sub.env)))
+    if not alts:
+        st.dead = "raise"  # every path of the helper raises
+        return top("helper always raises")
+    flat = []
+    for dnf, v, _ in alts:
+        for conj in dnf:
+            flat.append((conj, v))
+    res = _build_gated(flat, base_len) if len({v for _, v in flat}) > 1 else flat[0][1]
+    if res is None:
+        res = ("phi", tuple(v for _, v in flat))
+    # instance fields possibly changed by the helper
+    if is_method:
+        for k in set().union(*[set(e2) for _, _, e2 in alts]):
+            if k.startswith("self."):
+                vals = {e2.get(k, ("field", k[5:])) for _, _, e2 in alts}
+                st.env[k] = vals.pop() if len(vals) == 1 else ("havoc", self._new_uid(), k)
+    return res
+
+
+SymEval._inline_call = _inline_call_impl
 
 
 class _Box:
